@@ -94,9 +94,28 @@ package storage
 //@   ensures [fresh] fresh(partitions) || is_nil(partitions)
 //@   ensures [decodable-borders] forall(k, 0 <= k && k < len(partitions), len(partitions[k].End) >= 13)
 
+// ---- ghost view of an iteration (C03, C07) ----
+// The snapshot an iterator walks is the ghost sequence rec_key/rec_val[0..rec_n); rec_uk[i] is an
+// abstract rank of record i's user key, rec_rev[i] its revision; it_pos records have been
+// consumed. One iterator is live per verified function.
+//@ ghost rec_n Int
+//@ ghost rec_key (Array Int Slice)
+//@ ghost rec_val (Array Int Slice)
+//@ ghost rec_uk (Array Int Int)
+//@ ghost rec_rev (Array Int (_ BitVec 64))
+//@ ghost it_pos Int
+
+// A forward iteration over [start, end) yields the stored records of the interval in ascending
+// key order from one snapshot. The store holds only records written by the backend in the scanned
+// interval (well-formed internal keys), so by the order lemmas of C10 the sequence is sorted by
+// user key first and revision second, and equal ranks mean equal user keys.
 //@ func KvStorage.Iter(ctx, start, end, timestamp, limit) (it, err)
 //@   assumed
-//@   ensures [non-nil] err == nil ==> it != nil
+//@   modifies ghost.rec_n ghost.rec_key ghost.rec_val ghost.rec_uk ghost.rec_rev ghost.it_pos
+//@   ensures [non-nil] err == nil ==> it != nil && it_pos == 0 && rec_n >= 0 && rec_n <= 0x1000000000000
+//@   ensures [sorted-by-key-then-revision] err == nil && bytes_cmp(start, end) < 0 ==> sorted_seq(rec_uk, rec_rev, rec_n)
+//@   ensures [records-are-internal-keys] err == nil ==> forall(i, 0 <= i && i < rec_n, is_internal_key(rec_key[i]) && rec_rev[i] == key_rev(rec_key[i]) && rec_key[i].obj <= alloc && rec_val[i].obj <= alloc && (rec_rev[i] == 0 ==> len(rec_val[i]) >= 8))
+//@   ensures [rank-is-the-user-key] err == nil ==> ranks_are_keys(rec_uk, rec_key, heap_bytes, rec_n)
 
 //@ func KvStorage.Del(ctx, key) (err)
 //@   assumed
@@ -106,14 +125,20 @@ package storage
 
 //@ func Iter.Next(ctx) (err)
 //@   assumed
+//@   modifies ghost.it_pos
+//@   ensures [advance] err == nil ==> it_pos == old(it_pos)+1 && it_pos <= rec_n
+//@   ensures [stay] err != nil ==> it_pos == old(it_pos)
+//@   ensures [eof-means-all-consumed] err == io.EOF ==> old(it_pos) == rec_n
 
 //@ func Iter.Key() (key)
 //@   assumed
 //@   pure
+//@   ensures [current] it_pos >= 1 ==> key == rec_key[it_pos-1]
 
 //@ func Iter.Val() (val)
 //@   assumed
 //@   pure
+//@   ensures [current] it_pos >= 1 ==> val == rec_val[it_pos-1]
 
 //@ func Iter.Close() (err)
 //@   assumed
